@@ -18,7 +18,7 @@ from ..loader import AnalysisError, Program
 from ..model import Model, SchemaType
 from ..report import Run
 from ..engine import Interp
-from ..values import Const, DictV, ListV, StrV, Sym, Term, TupleV, V, is_ell
+from ..values import Const, DictV, Inst, ListV, PropsV, SchemaV, StrV, Sym, Term, TupleV, V, is_ell
 from ..visits import Config, configs_for, key_tables, list_shapes, member, representor_ctx, run_visit
 from .c17 import order_taint
 
@@ -126,12 +126,17 @@ def check(run: Run, prog: Program, model: Model, tier: str) -> None:
         "must be exactly the represented state. Container payloads must be printed token by token (members, `...`, "
         "optional(key) flags, relaxed marker) in order. Determinism: no set-order dependence in the representor."
         " The emitted order must accept under every value condition under which any other order of the same refinements accepts; every constructor of a union stores a flat tuple.")
+    run.explanation += ' REPR-PURE: no write event on the schema, the visitor or a module global, and no path fact over remembered state, on any rendering path (decorators defined in the program are applied).'
     run.rule_text = ("one obligation per (type, reachable state/shape); non-trivial = states with >= 2 props or a container "
                      "payload, i.e. where order/argument-shape matter")
+    from ..entry import entry_transparent
+    entry_transparent(run, prog, model, "represent", "REPRESENT-ENTRY")
     run.trusted += ["eval(repr(x)) == x for int, str, bytes, bool, None, finite float, UUID, datetime, date",
                     "whitespace inside brackets is insignificant", "Python's ast.parse (stdlib) on the emitted text"]
     run.assumptions += ["equality of the rebuilt schema follows from equal state + equal bindings (Props.__eq__ is structural: C15)"]
     n_states = 0
+    pure_bad: Dict[str, Tuple[str, Set[str]]] = {}
+    pure_ok: Set[str] = set()
     for st in sorted(model.concrete_builtin_schemas(), key=lambda s: s.name):
         if st.name in ("TypeAliasSchema",):
             continue
@@ -155,6 +160,35 @@ def check(run: Run, prog: Program, model: Model, tier: str) -> None:
                 continue
             for p in paths:
                 _check_emission(run, prog, model, st, ta, cfg, p, construct, f.loc)
+            # REPR-PURE: the text is a function of the schema and the indent only - nothing is remembered on the schema,
+            # the visitor or the module between two renderings (a remembered text is replayed at another depth / for
+            # another flavour: "same repr", "nesting level not altered")
+            impure: List[str] = []
+            for p in paths:
+                for e in p.events:
+                    if e.kind == "write" and not (e.func or "").endswith(".__init__"):
+                        tgt = e.data.get("target")
+                        tk = tgt.key() if isinstance(tgt, V) else str(tgt)
+                        root = tgt
+                        while isinstance(root, Term) and root.args and root.op in ("attr", "getitem", "mcall", "getattr"):
+                            root = next((a for a in root.args if isinstance(a, V)), None)
+                        if isinstance(root, (SchemaV, PropsV)) or (isinstance(root, Inst) and root.origin == "visitor") or (
+                                isinstance(root, Sym) and root.origin and root.origin[0] == "global"):
+                            impure.append(f"{e.data.get('how')} on {tk[:50]} @ {e.loc(prog)}")
+                for fk, t, b in p.facts:
+                    if "__dict__" in fk or "global " in fk:
+                        impure.append(f"the rendering depends on remembered state ({fk[:60]})")
+            key_pure = f"Representor.{hook}: rendering is pure"
+            if impure:
+                pure_bad.setdefault(key_pure, (f.loc, set()))[1].update(impure)
+            else:
+                pure_ok.add(key_pure)
+    for k_, (loc_, msgs) in sorted(pure_bad.items()):
+        run.violated("REPR-PURE", k_, loc_, "; ".join(sorted(msgs))[:300],
+                     witness="the same container rendered on its own and then inside a parent is printed at the wrong depth: repr(eval(repr(s))) != repr(s)")
+    for k_ in sorted(pure_ok - set(pure_bad)):
+        run.holds("REPR-PURE", k_, "", "no write to the schema, the visitor or a module global; no read of remembered state", nontrivial=True)
+    run.floor("REPR-PURE", 8)
     run.analysed["represented_states"] = n_states
     run.floor("EMIT-REPLAY", 80)
 
@@ -416,6 +450,9 @@ def _container_payload(st: SchemaType, args: List[ast.expr], vals: Dict[str, V],
 
 R = "d42/representation/_representor.py"
 MUTANTS = [
+    {"name": "container text memoised on the schema instance by a decorator (seeded C06-L)", "rule": "REPR-PURE",
+     "edits": [("d42/representation/_representor.py", "class Representor(", "def _memoized(visit: Any) -> Any:\n    def wrapper(self: Any, schema: Any, *, indent: int = 0, **kwargs: Any) -> str:\n        memo = schema.__dict__.get(\"_memo\")\n        if memo is not None:\n            return cast(str, memo)\n        text = visit(self, schema, indent=indent, **kwargs)\n        schema.__dict__[\"_memo\"] = text\n        return cast(str, text)\n    return wrapper\n\n\nclass Representor("),
+               ("d42/representation/_representor.py", "    def visit_list(self, schema: ListSchema", "    @_memoized\n    def visit_list(self, schema: ListSchema")]},
     {"name": "`|` appends its right operand to an existing union without flattening it", "rule": "CANONICAL-ANY",
      "edits": [("d42/declaration/__init__.py", "    return schema.any(self, other)\n",
                 "    if isinstance(self, AnySchema) and self.props.types is not Nil and isinstance(other, Schema):\n        return self.__class__(self.props.update(types=self.props.types + (other,)))\n    return schema.any(self, other)\n"),
